@@ -277,7 +277,9 @@ func (w *World) refClosure(fn *ssa.Function, into map[*ssa.Function]bool) {
 									fam = true
 								}
 							}
-							if fam || t.Parent() != nil && into[t.Parent()] {
+							if fam || t.Parent() != nil && into[t.Parent()] || rootedAtGlobal(c.Common().Value) {
+								// (a function kept in a package-level table - a map or slice of functions or of structs
+								// with function fields, filled at initialisation - belongs to whoever calls through it)
 								w.refClosure(t, into)
 							}
 						}
@@ -446,4 +448,52 @@ func (cx *Ctx) onlyAfterPass(ch *Chain, hscope map[*ssa.Function]bool, c ssa.Cal
 		}
 	}
 	return true
+}
+
+// rootedAtGlobal: v is read out of a package-level variable (through fields, elements, map lookups, and locals
+// that hold nothing else).
+func rootedAtGlobal(v ssa.Value) bool { return rootedAtGlobalD(v, 0) }
+
+func rootedAtGlobalD(v ssa.Value, depth int) bool {
+	for i := 0; i < 12 && depth < 6; i++ {
+		switch x := v.(type) {
+		case *ssa.Global:
+			return true
+		case *ssa.Field:
+			v = x.X
+		case *ssa.FieldAddr:
+			v = x.X
+		case *ssa.Index:
+			v = x.X
+		case *ssa.IndexAddr:
+			v = x.X
+		case *ssa.Lookup:
+			v = x.X
+		case *ssa.Extract:
+			v = x.Tuple
+		case *ssa.UnOp:
+			v = x.X
+		case *ssa.Alloc:
+			n := 0
+			for _, ref := range nonDebugRefs(x) {
+				if st, ok := ref.(*ssa.Store); ok && st.Addr == x {
+					n++
+					if !rootedAtGlobalD(st.Val, depth+1) {
+						return false
+					}
+				}
+			}
+			return n > 0
+		case *ssa.Phi:
+			for _, e := range x.Edges {
+				if !rootedAtGlobalD(e, depth+1) {
+					return false
+				}
+			}
+			return len(x.Edges) > 0
+		default:
+			return false
+		}
+	}
+	return false
 }
